@@ -1,16 +1,35 @@
 import NauyacaVerif.Drv.Common
 import NauyacaVerif.Url.Basic
+import NauyacaVerif.Url.WireModel
 namespace NauyacaVerif.Drv.UrlD
 open NauyacaVerif.Drv Url
 
 def lowerA (s : Str) : Str := s.map lowerAscii
 
-/-- `url <cps> <ipLitOk> <nfkcOk>` -/
+def mkEnv (ip nf : String) : Env := { ipLiteralOk := fun _ => ip == "1", nfkcOk := fun _ => nf == "1", lowerU := lowerA }
+
+def showParsed (p : Parsed) : String :=
+  s!"ok {showCps p.host} {p.port} {showCps p.path} {showCps p.query} {showCps p.normalized}"
+
+def showWireErr : WireErr → String
+  | .incomplete => "incomplete"
+  | .tooLong => "tooLong"
+  | .url e => s!"{repr e}"
+
+/-- `url <cps> <ipLitOk> <nfkcOk>`                      → `ok <host> <port> <path> <query> <normalized>` | `err <kind>`
+    `wire <maxReq> <cps> <ipLitOk> <nfkcOk>`            → `ok <request line incl. CRLF> | <server-side parse of it>` | `err <kind>`
+    (`wire`: what `GeminiClient.get` writes for the URL and what `GeminiRequest.from_line` makes of it) -/
 def handle : List String → Option String
   | ["url", u, ip, nf] =>
-    let env : Env := { ipLiteralOk := fun _ => ip == "1", nfkcOk := fun _ => nf == "1", lowerU := lowerA }
-    match parseUrl env (cpsChars u) with
+    match parseUrl (mkEnv ip nf) (cpsChars u) with
     | .error e => some s!"err {repr e}"
-    | .ok p => some s!"ok {showCps p.host} {p.port} {showCps p.path} {showCps p.query} {showCps p.normalized}"
+    | .ok p => some (showParsed p)
+  | ["wire", mx, u, ip, nf] =>
+    match clientWire (mkEnv ip nf) mx.toNat! (cpsChars u) with
+    | .error e => some s!"err {showWireErr e}"
+    | .ok w =>
+      match serverParse (mkEnv ip nf) mx.toNat! w with
+      | .error e => some s!"ok {showCps w} | err {showWireErr e}"
+      | .ok p => some s!"ok {showCps w} | {showParsed p}"
   | _ => none
 end NauyacaVerif.Drv.UrlD
